@@ -90,7 +90,10 @@ def scaffolding_obligation(e, assembled):
     """is the failed obligation part of the PROOF (loop invariant, decreases, precondition of a proof-fn call) rather than a
     contract obligation of the code?"""
     msg = e["msg"]
-    if re.search(r"invariant not satisfied|decreases not satisfied", msg):
+    # "invariant not satisfied BEFORE loop" depends on the statements preceding the loop (a statement moved across the loop
+    # breaks it although nothing changed semantically); preservation failures ("at end of loop body", at a `continue`) are
+    # about the loop's own body and stay verdicts - same residual risk as for local drift (see DESIGN 9.2)
+    if re.search(r"invariant not satisfied before loop|decreases not satisfied", msg):
         return True
     if msg.startswith("precondition not satisfied") and assembled and e.get("line") and e.get("col"):
         try:
@@ -530,7 +533,8 @@ def report(prop, tier, seed, cfg, results, kres, known, t0, selftest=()):
                                     "clauses": it["clauses"], "sha256": it["sha256"][:16]})
     samples = samples[:12] + [{"kani_harness": k["harness"], "covers": k.get("covers", ""), "status": k["status"]} for k in kres[:8]]
     for oid, k in known_hits:
-        print("KNOWN-FINDING: property=%s %s" % (prop, k["_text"]))
+        # the finding is reported under the property it is listed for (a unit can serve two properties)
+        print("KNOWN-FINDING: property=%s %s" % (k.get("property", prop), re.sub(r"^property=\S+\s+", "", k["_text"])))
     for oid, path, tail, e in violations:
         print("obligation failed: %s  [%s]  clause: %s" % (oid, e["msg"], e["snippet"][:160]))
         print(("VIOLATION property=%s replay=%s %s" % (prop, path, tail)).rstrip())
